@@ -23,6 +23,9 @@ CHECKS = {
  "C06": ("fault_enumeration", "fault enumeration: every fault kind at every position behind every valid script prefix (bounded-exhaustive) + proptest prefixes; oracle over the peer's event log",
          "For all 17 sequences, every valid reply prefix up to depth 4 (thorough 5) is followed by each fault (4 NACK codes, packets outside the reply set, undecodable bodies inside it, truncated packets followed by end of stream, end of stream) at the acknowledgement position or instead of the next reply: exactly one Err after the Ok items, then None twice without I/O, and no byte written after the faulty bytes were released.",
          "Trusted: the fault model of Appendix C; malformed bodies are those both the reference decoder and the packet's own decoder reject.", "7/C06"),
+ "C11": ("exploration", "proptest generation of payload directories, block sizes and request scripts; the real upload stream runs against a scripted peer over real temporary files; reference codec decodes the client's packets",
+         "Generated directories (subsets of the 21 recognised paths plus unrelated files, sizes around 0 / block / k*block, random content), block sizes 1..32768 and request scripts (announced / unannounced ids, offsets at, before and after end of file and beyond 2^31, missing fields) drive the real WriteFile stream: the announcement must list exactly the recognised files with their true sizes and the password, every good request must be answered once with its id, offset and the bit-identical file slice, a bad request must end the upload with one error and no data.",
+         "Trusted: own copy of the 21-entry file-id table; reference codec for feig.WriteFile / WriteData / RequestForData; files live in a per-case temporary directory.", "7/C11"),
  "C13": ("exploration", "proptest-generated canonical values x enumerated edits of the reference encoder's group list (permutations, duplicates, removals, foreign tags) at every nesting level",
          "For every shipped type with tagged fields and generated canonical values, the tagged groups are permuted (all permutations up to 4/6 groups, sampled above), duplicated to every position, mandatory ones removed in every subset, and a tag unknown to the whole packet tree inserted at every gap, at the top level and inside every nested container; the decoder must return the same value, DuplicateTag(t), MissingRequiredTags(all, ascending), or error / exact prefix value + untouched remainder respectively.",
          "Trusted: reference encoder's grouping (tree.rs) and reference decoder for the prefix value. Inside Vec elements the documented 'failure = end of vector' rule weakens the oracle to the prefix predicate. Generated (lab) structs are covered by C12.", "7/C13"),
